@@ -22,8 +22,8 @@ def toEv (l : Line) : Parsed :=
   | "gac.sample" =>
     -- payload: ((count << 1) | self) read before and after the predicate's own load
     if x == y then .ev (.sample a (x / 2) (x % 2)) else .bad "counter changed inside the sampled section"
-  | "task.stage" => .ev (.stage a)
-  | "task.unstage" => .ev (.unstage a)
+  | "newq.push" => .ev (.stage a)
+  | "newq.pop" => .ev (.unstage a)
   | "task.new" => .ev (.new a o)
   | "task.rebind" => .ev (.new a o)
   | "task.destroy" => .ev (.destroy a o)
@@ -142,8 +142,8 @@ def monitors (ls : List Line) : List String :=
 
 /-- Thread objects pre-allocated for the recycling heap (`thread_queue::on_start_thread`) are
     constructed without a task: the `task.new` of the constructor is immediately followed, on the
-    same OS thread, by `task.pool` for the same object.  Both lines are dropped (a pooled object is
-    not a unit of activity); an unmatched `task.pool` stays and is rejected as an unknown site. -/
+    same OS thread, by `heap.pool` for the same object.  Both lines are dropped (a pooled object is
+    not a unit of activity); an unmatched `heap.pool` stays and is rejected as an unknown site. -/
 def dropPooled (ls : Array Line) : List Line :=
   let n := ls.size
   let init : Array Bool × Array (Option (Nat × Nat)) := (Array.replicate n true, #[])
@@ -151,7 +151,7 @@ def dropPooled (ls : Array Line) : List Line :=
     let l := ls[i]!
     let (keep, last) := acc
     if l.site == "task.new" then (keep, setAt last l.tid (some (i, l.obj)) none)
-    else if l.site == "task.pool" then
+    else if l.site == "heap.pool" then
       match last.getD l.tid none with
       | some (j, o) =>
         if o == l.obj then ((keep.set! i false).set! j false, setAt last l.tid none none) else (keep, last)
